@@ -167,6 +167,13 @@ where
     T: Real + RealAngle + Into<f64> + Powi + Mul<Output = T> + Clone,
 {
     fn from_color_unclamped(color: Hsluv<Wp, T>) -> Self {
+        // The gamut collapses to a point at zero lightness, where the bounds
+        // are undefined and the reference implementation sets the chroma to 0.
+        let l: f64 = color.l.clone().into();
+        if l < 0.00000001 {
+            return Lchuv::new(color.l, T::from_f64(0.0), color.hue);
+        }
+
         // Apply the given saturation as a percentage of the max
         // chroma for that hue.
         let max_chroma =
